@@ -278,6 +278,39 @@ def catch_rule(run, f, rid):
                     run.fail(rid, cb.npath + "/message-unmodified", cb.loc(), "the panic message is sliced/truncated before it is reported (%s): long messages are cut and a cut inside a UTF-8 character panics outside catch_unwind" % bad[0], counts_as_instance=False)
 
 
+def _closures_in(d, out):
+    if isinstance(d, tuple):
+        if len(d) == 2 and d[0] == "closure":
+            out.add(d[1])
+        for x in d:
+            _closures_in(x, out)
+    return out
+
+
+def caught_region(f, ub, du, cu_term):
+    """The bodies that run under one catch_unwind call of the unit `ub`: the closure handed to it, the closures that
+    closure captured (a callback passed into a shared helper travels as a captured value) and everything nested in
+    them.  Closures are matched by normalised path."""
+    roots = _closures_in(describe_val(ub, du, cu_term["args"][0]), set())
+    region, work = set(), list(roots)
+    while work:
+        k = work.pop()
+        if k in region:
+            continue
+        region.add(k)
+        # closures captured by k: operands of the aggregate that builds k, wherever in the unit it is built
+        for blk in ub.blocks:
+            for s_ in blk["stmts"]:
+                if s_["k"] == "assign" and s_["rhs"]["k"] == "agg" and norm(s_["rhs"].get("closure") or "") == k:
+                    for o in s_["rhs"]["ops"]:
+                        for c in _closures_in(describe_val(ub, du, o), set()):
+                            work.append(c)
+        for cb in f.bodies:
+            if cb.kind == "Closure" and cb.npath.startswith(k + "::{closure#"):
+                work.append(cb.npath)
+    return region
+
+
 def listener_rule(run, f, rid):
     run.rule(rid, "every listener callback is individually wrapped in catch_unwind (a panicking listener neither unwinds into the runtime nor starves later listeners)", floor=8, template="T2")
     names = ["on_state_changed", "on_ready", "on_running", "on_suspend", "on_syscall", "on_cancel", "on_complete", "on_error"]
@@ -285,29 +318,51 @@ def listener_rule(run, f, rid):
         b = need(run, rid, f, "<%s as coroutine::listener::Listener>::%s" % (CO, n))
         if b is None:
             continue
+        b = inl(f, b)          # a shared `for_each_listener(name, |l| l.on_x(..))` helper is part of every broadcast method
         cfg = Cfg(b)
+        du = DefUse(b)
         cu = find_calls(b, callee_is("std::panic::catch_unwind"))
         nx = [x for (x, t) in b.calls() if norm(t.get("orig") or "").endswith("Iterator::next")]
-        direct = [t for (_x, t) in b.calls() if (t.get("trait") or "").endswith("listener::Listener")]
-        inner = []
-        for cb in f.closures_of(b):
-            for (_x, t) in cb.calls():
-                if (t.get("trait") or "").endswith("listener::Listener"):
-                    inner.append(cb)
-            for c2 in f.closures_of(cb):
-                for (_x, t) in c2.calls():
-                    if (t.get("trait") or "").endswith("listener::Listener"):
-                        inner.append(c2)
+        is_l = lambda t: (t.get("trait") or "").endswith("listener::Listener")
+        direct = [t for (_x, t) in b.calls() if is_l(t)]
+        region = caught_region(f, b, du, cu[0][1]) if len(cu) == 1 else set()
+        # every closure reachable from this method that calls a listener, inside or outside the caught region
+        mine = set()
+        for blk in b.blocks:
+            for s_ in blk["stmts"]:
+                if s_["k"] == "assign" and s_["rhs"]["k"] == "agg" and s_["rhs"].get("closure"):
+                    mine.add(norm(s_["rhs"]["closure"]))
+        mine |= {cb.npath for cb in f.bodies if cb.kind == "Closure" and any(cb.npath.startswith(m + "::{closure#") for m in mine)}
+        calling = {cb.npath: [norm(t["orig"]).rsplit("::", 1)[1] for (_x, t) in cb.calls() if is_l(t)] for cb in f.bodies if cb.npath in mine | region}
+        calling = {k: v for k, v in calling.items() if v}
+        inner = [k for k in calling if k in region]
+        outside = [k for k in calling if k not in region]
+        # being captured by the caught closure is not enough: a listener-calling closure must also not be INVOKED from
+        # uncaught code (`notify(*listener)` in a helper body next to the caught call).  Invocation = an Fn/FnMut/FnOnce
+        # call whose callee value is that closure, in the unit body or in any closure outside the region
+        def invokes_listener_closure(body_, du_):
+            hits = []
+            for (x_, t_) in body_.calls():
+                if norm(t_.get("orig") or "").endswith(("Fn::call", "FnMut::call_mut", "FnOnce::call_once")) and t_["args"] and not t_.get("exp"):
+                    if _closures_in(describe_val(body_, du_, t_["args"][0]), set()) & set(calling):
+                        hits.append(t_)
+            return hits
+        uncaught_invocations = invokes_listener_closure(b, du)
+        for cb in f.bodies:
+            if cb.npath in mine and cb.npath not in region:
+                uncaught_invocations += invokes_listener_closure(cb, DefUse(cb))
         why = []
-        if direct:
+        if direct or outside or uncaught_invocations:
             why.append("a listener is called outside catch_unwind")
+        if any(v != [n] for v in calling.values()):
+            why.append("the broadcast of %s calls %s" % (n, sorted({x for v in calling.values() for x in v})))
         if len(cu) != 1 or not inner:
             why.append("expected one catch_unwind around the listener call")
         else:
             # catch_unwind sits inside the per-listener loop: it is on a cycle with the iterator's next()
             if not nx or not cfg.in_cycle(cu[0][0]) or not any(cu[0][0] in cfg.reachable(cfg.after(x)) and x in cfg.reachable(cfg.after(cu[0][0])) for x in nx):
                 why.append("catch_unwind wraps the whole loop instead of each listener: after one listener panics the remaining listeners miss the event")
-            for cb in inner:
+            for cb in [c for c in f.bodies if c.npath in region]:
                 if any(norm(t.get("orig") or "").endswith("Iterator::next") for (_x, t) in cb.calls()):
                     why.append("the loop over listeners runs inside the caught closure")
         if why:
